@@ -470,7 +470,8 @@ class Tracer:
                 return {'t': 'tuple', 'items': [inline(x) for x in v]}
             if type(v) is dict:
                 return {'t': 'opaque', 'type': 'dict'}
-            return c.scalar(v)
+            s = c.scalar(v)
+            return s if s is not None else c.opaque(v)      # (subclasses of list / dict / tuple)
         if name == 'shuffle' and type(r) is list:
             # elements by identity: references stay references
             return {'t': 'val', 'v': {'t': 'ilist', 'items': [self.ref(x) for x in r]}, 'new': id(r) not in c.addr}
